@@ -519,6 +519,8 @@ def main(tier):
                 continue
             is_eval = m.tb.eval_fn() is not None and g.path == m.tb.eval_fn().path
             t = m.tb.fn_term(g, inline_pure=True, eval_fn=(m.tb.eval_names() if is_eval else None))
+            if "::tokenizer::" in g.key:
+                t = T.alpha(T.normalise(t))      # rewrites keyed on the shortened names (next_if loops) apply now
             info = {"MC": MC, "param_literals": plits if g.key.endswith("function_static_arguments") else {}}
             before = counts["loops"]
             classify_loops(run, g, t, info, kmax, counts)
